@@ -310,6 +310,15 @@ fn main() {
             pats.push(format!("{{{},}}p-1", alts.join(",")));
             pats.push(format!("p-{{{}}}", (0..n).map(|i| i.to_string()).collect::<Vec<_>>().join(",")));
         }
+        // large groups in which one alternative is itself pattern text
+        for n in [15usize, 16, 17, 40, 100] {
+            let alts: Vec<String> = (0..n).map(|i| format!("opt{}", i)).collect();
+            pats.push(format!("py-{{{},x*}}-foo-1", alts.join(",")));
+            pats.push(format!("py-{{x*,{}}}-foo-1", alts.join(",")));
+            pats.push(format!("py-{{{},[xy]?z}}-foo-1", alts.join(",")));
+            pats.push(format!("{{{},py-foo>=1}}", alts.join(",")));
+            pats.push(format!("py-foo{{{},>=1}}", alts.join(",")));
+        }
         for g in [4usize, 6, 8, 10] {
             pats.push(format!("p{}-1", "{a,b}".repeat(g)));
             pats.push(format!("p{}-1", "{,a}".repeat(g)));
@@ -325,6 +334,7 @@ fn main() {
             pats.push(format!("p{}a{}-1", "{".repeat(d), ",c}".repeat(d)));
         }
         let names: Vec<String> = ["p-1", "pa0-1", "pa7-1", "pa15-1", "pa16-1", "pa63-1", "pa199-1", "pa200-1", "a0p-1", "a16p-1", "p-0", "p-16", "p-199", "p-200",
+            "py-xyz-foo-1", "py-opt3-foo-1", "py-opt16-foo-1", "py-xyz-foo-2", "py-x-foo-1", "py-foo-1", "py-foo-2", "py-foo-0", "py-fooopt3", "opt3", "py-yaz-foo-1",
             "pab-1", "paaaa-1", "paaaaaaaaaaaa-1", "paaaaaaaaaaaaaaaaaa-1", "paaaaaaaaaaaaaaaaaaaa-1", "pabababab-1", "paaaaaaaaaa-1", "pb-1", "pa-1", "pbbbba-1", "pc-1", "pac-1", "pacccc-1"].iter().map(|s| s.to_string()).collect();
         run.bound(format!("scale: {} patterns with 8..200 alternatives, 4..10 groups, nesting depth 4..32 x {} names plus own expansions", pats.len(), names.len()));
         for p in &pats {
